@@ -372,6 +372,12 @@ def facts_before(f, var, line, node=None):
                     facts.update(neg_atoms(s.test))
                 elif contains:
                     in_body = any(getattr(y, 'lineno', -1) == line for b in s.body for y in ast.walk(b))
+                    if in_body:
+                        if isinstance(s.test, ast.Name) and s.test.id == var:
+                            facts.add('ne0')
+                        facts.update(pos_atoms(s.test))
+                    else:
+                        facts.update(neg_atoms(s.test))
                     scan(s.body if in_body else s.orelse)
                     return
                 # `if pos < 0: pos += len(self)` normalisation keeps nothing; ignore
@@ -613,6 +619,11 @@ def rule_N1(ctx):
                         have |= {'gt0', 'ne0'}
                 elif isinstance(arg, ast.Name):
                     have = facts_before(g, arg.id, cs.node.lineno, node=cs.node)
+                elif isinstance(arg, ast.Call) and isinstance(arg.func, ast.Name) and arg.func.id == 'min' and len(arg.args) == 2 and not arg.keywords \
+                        and any(_is_len_self(a, _len_aliases(g)) for a in arg.args) and any(isinstance(a, ast.Name) for a in arg.args):
+                    # f(min(v, len(self))): the clipping `v = min(v, len(self))` written in the argument
+                    v = next(a for a in arg.args if isinstance(a, ast.Name) and not _is_len_self(a, _len_aliases(g)))
+                    have = facts_before(g, v.id, cs.node.lineno, node=cs.node) | {'le_len'}
                 else:
                     have = set()
                 if not need <= have:
